@@ -89,6 +89,12 @@ func stubValidateV2Transaction(ms *consensus.MidState, txn types.V2Transaction) 
 	if absP.txBad[v2tag(txn)] {
 		return errors.New("abstract: transaction invalid against the tip")
 	}
+	for i := range txn.SiacoinInputs {
+		// (core checks every input's Merkle proof against the state's accumulator)
+		if proofIsGarbage(&txn.SiacoinInputs[i].Parent.StateElement) {
+			return errors.New("abstract: siacoin input has an invalid Merkle proof (moved by the wrong update)")
+		}
+	}
 	for _, sci := range txn.SiacoinInputs {
 		id := types.Hash256(sci.Parent.ID)
 		if s.spent[id] {
@@ -145,6 +151,11 @@ func stubApplyTransaction(ms *consensus.MidState, txn types.Transaction, ts cons
 func stubValidateTransactionElements(acc *consensus.ElementAccumulator, txn types.V2Transaction) error {
 	if absP.elemBad[v2tag(txn)] {
 		return errors.New("abstract: parent has invalid Merkle proof")
+	}
+	for i := range txn.SiacoinInputs {
+		if proofIsGarbage(&txn.SiacoinInputs[i].Parent.StateElement) {
+			return errors.New("abstract: parent has invalid Merkle proof (moved by the wrong update)")
+		}
 	}
 	return nil
 }
